@@ -205,7 +205,9 @@ def hir_strs(h):
 
 def check_from(run_, F, sc, f, b, o):
     ab, ao = adt(sc, b, False), adt(sc, o, True)
-    eng = sym.Engine(F, max_visits=2)
+    # private helpers are analysed in place; the conversions themselves (From/Into impls) stay calls and are judged one by one
+    eng = sym.Engine(F, max_visits=2, max_depth=8,
+                     inline=lambda g, ev: g.crate == "postcard_schema" and (g.impl_trait or "") not in ("core::convert::From", "core::convert::Into") and "{closure" not in g.canon)
     paths = [p for p in eng.run(f) if p.status == "return"]
     src = ("param", 1, f.locals[1]["ty"])
     seen = set()
@@ -246,7 +248,8 @@ def check_from(run_, F, sc, f, b, o):
         run_.bad("F", "%s <- %s::%s" % (o, b, ab["variants"][k]["name"]), "no conversion arm for this variant", f.where())
 
 
-ALLOWED = ("Into::into", "Box::<T>::new", "Iterator::map", "Iterator::collect", "<impl [T]>::iter", "IntoIterator::into_iter")
+ALLOWED = ("Into::into", "From::from", "Box::<T>::new", "Iterator::map", "Iterator::collect", "<impl [T]>::iter", "IntoIterator::into_iter", "Iterator::copied",
+           "Iterator::cloned")
 
 
 def provenance(F, sc, p, v, depth=0):
@@ -269,8 +272,10 @@ def provenance(F, sc, p, v, depth=0):
             cf = F.fn_by_canon(cc) if cc else None
             if cf is None:
                 return None, "map closure not found"
-            ls = summ.lines(summ.summarize(F, cf))
-            if not (len(ls) == 1 and re.match(r"^if always: #1 = <&schema::\w+ as Into>::into\(\*arg2\) => #1$", ls[0])):
-                return None, "elements are mapped with %s, expected |i| (*i).into()" % ls
+            import summ2
+            ls = [o["text"] for o in summ2.summarize(F, cf, inline=lambda g, ev: False)["outcomes"]]
+            if not (len(ls) == 1 and (re.match(r"^#1 = <[^>]*schema::[\w:]+ as (Into|From)>::(into|from)\(\*?arg2\) => #1$", ls[0])
+                                      or re.match(r"^- => (into|from)::<[^()]*schema::[^()]*>\(\*?arg2\)$", ls[0]))):
+                return None, "elements are mapped with %s, expected the element's own conversion |i| (*i).into()" % ls
         return provenance(F, sc, p, v[3][0], depth + 1)
     return None, "unrecognised value %s" % sym.show(v)
